@@ -115,15 +115,24 @@ def exact_case(acc, rnd):
                     value += speed * F(dt)
                 ops.append(('real+=', dt))
                 continue
+            if op in ('start', 'stop', 'speed'):
+                s = rnd.choice(SPEEDS) if op == 'speed' else None
+                try:
+                    if op == 'start':
+                        c.start()
+                    elif op == 'stop':
+                        c.stop()
+                    else:
+                        c.speed = s
+                except Exception as e:      # noqa
+                    acc.violation('C14:legal-operation-raised', '%s%s on a clock (started: %r) raised %s: %s'
+                                  % (op, '' if s is None else ' = %r' % s, playing, type(e).__name__, str(e)[:200]), dict(ops=ops))
+                    return
             if op == 'start':
-                c.start()
                 playing = True
             elif op == 'stop':
-                c.stop()
                 playing = False
             elif op == 'speed':
-                s = rnd.choice(SPEEDS)
-                c.speed = s
                 speed = F(s)
                 if playing:
                     feats.add('speed_change_running')
@@ -201,15 +210,24 @@ def bounded_case(acc, rnd):
                     hi += speed * dt
                 ops.append(('real+=', dt))
                 continue
+            if op in ('start', 'stop', 'speed'):
+                s = rnd.choice(SPEEDS) if op == 'speed' else None
+                try:
+                    if op == 'start':
+                        c.start()
+                    elif op == 'stop':
+                        c.stop()
+                    else:
+                        c.speed = s
+                except Exception as e:      # noqa
+                    acc.violation('C14:legal-operation-raised', '%s%s on a clock (started: %r) raised %s: %s'
+                                  % (op, '' if s is None else ' = %r' % s, playing, type(e).__name__, str(e)[:200]), dict(ops=ops))
+                    return
             if op == 'start':
-                c.start()
                 playing = True
             elif op == 'stop':
-                c.stop()
                 playing = False
             elif op == 'speed':
-                s = rnd.choice(SPEEDS)
-                c.speed = s
                 speed = s
             elif op == 'set':
                 v = hi + rnd.choice((0.5, 1, 5, 50))         # clearly above the current value: must be accepted
